@@ -535,7 +535,7 @@ inductive PNRes | none | strOfCustomHash | strOfHashValue | const (s : List Char
 inductive PNTree | ret (r : PNRes) | ite (c : PNCond) (a b : PNTree)
 inductive Wrapper | evolve (overrides : List String) | construct (keywords : List String)
 /-- where a field of the `NodeInfo` of an argument comes from -/
-inductive NISrc | parameter | treePath | modulePath | moduleDir | taskName | other
+inductive NISrc | parameter | treePath | emptyPath | modulePath | moduleDir | taskName | other
   deriving DecidableEq
 '''
 
@@ -929,7 +929,59 @@ def _nodeinfo_wiring(host):
                 raise _err(f"{fname}: its calls wire NodeInfo differently")
             wir = w
         out[side] = wir
+        if side == "dep":
+            out["merged"] = _merged_node_wiring(fn, fparams, outer)
     return out
+
+
+def _merged_node_wiring(fn, fparams, outer):
+    """The PythonNode that replaces a container of unhashed python values (`dependencies[param] = PythonNode(value=value, …)`):
+    does it get a NodeInfo, and wired how?  None = no `node_info` keyword."""
+    cands = []
+    for n in ast.walk(fn):
+        if isinstance(n, ast.Assign) and len(n.targets) == 1 and isinstance(n.targets[0], ast.Subscript) \
+                and isinstance(n.value, ast.Call) and _u(n.value.func) == "PythonNode":
+            cands.append(n)
+    if len(cands) != 1:
+        raise _err(f"{fn.name}: {len(cands)} assignments of a PythonNode(...) to the result")
+    call = cands[0].value
+    kws = {k.arg: k.value for k in call.keywords}
+    if call.args or None in kws or "value" not in kws or "name" not in kws or set(kws) - {"value", "name", "node_info"}:
+        raise _err(f"{fn.name}: merged node {_u(call)}")
+    if "node_info" not in kws:
+        return None
+    locals_ = {}
+    for n in ast.walk(fn):
+        if isinstance(n, ast.Assign) and len(n.targets) == 1 and isinstance(n.targets[0], ast.Name):
+            locals_.setdefault(n.targets[0].id, []).append(n.value)
+    e = kws["node_info"]
+    if isinstance(e, ast.Name):
+        vals = locals_.get(e.id, [])
+        if len(vals) != 1:
+            raise _err(f"{fn.name}: {e.id} assigned {len(vals)} times")
+        e = vals[0]
+    if not (isinstance(e, ast.Call) and _u(e.func) == "NodeInfo" and not e.args):
+        raise _err(f"{fn.name}: node_info of the merged node is {_u(e)[:60]}")
+    ni = {k.arg: k.value for k in e.keywords}
+    if sorted(ni) != ["arg_name", "path", "task_name", "task_path", "value"]:
+        raise _err(f"{fn.name}: NodeInfo keywords of the merged node {sorted(ni)}")
+    w = {}
+    for f in ("arg_name", "path", "task_name", "task_path"):
+        x = ni[f]
+        if f == "path":
+            if isinstance(x, ast.Tuple) and not x.elts:
+                w[f] = "emptyPath"
+                continue
+            raise _err(f"{fn.name}: merged node path {_u(x)}")
+        if not isinstance(x, ast.Name):
+            raise _err(f"{fn.name}: merged node {f} = {_u(x)}")
+        if x.id in fparams:
+            w[f] = outer.get(x.id) or "other"
+        elif f == "arg_name":
+            w[f] = "parameter"
+        else:
+            raise _err(f"{fn.name}: merged node {f} = {x.id}")
+    return w
 
 
 def hashsrc_section() -> list[str]:
@@ -1003,6 +1055,10 @@ def hashsrc_section() -> list[str]:
     for side, key in (("dep", "depNodeInfo"), ("prod", "prodNodeInfo")):
         w = wiring[side]
         L.append(f"def {key} : List (String × NISrc) := [" + ", ".join(f'("{f}", .{w[f]})' for f in ("arg_name", "path", "task_name", "task_path")) + "]")
+    m = wiring["merged"]
+    L.append("/-- the PythonNode that replaces a container of unhashed python values of one parameter: its `NodeInfo` (`none`: it gets none). -/")
+    L.append("def mergedNodeInfo : Option (List (String × NISrc)) := " + ("none" if m is None else
+             "some [" + ", ".join(f'("{f}", .{m[f]})' for f in ("arg_name", "path", "task_name", "task_path")) + "]"))
     L.append("end Hsrc")
     L.append("")
     return L
